@@ -24,7 +24,7 @@ ASSUMPTIONS = [
 ]
 
 DEPTH = {"quick": 5, "thorough": 7}
-FRAMES = [(), ("t",), ("b",), ("t", "t"), ("t", "b"), ("b", "t"), ("b", "b")]
+FRAMES = [(), ("t",), ("b",), ("t", "t"), ("t", "b"), ("b", "t"), ("b", "b"), ("e", "E"), ("E", "e")]  # e / E: an empty text / binary frame (a message like any other)
 FAULTS = [None, 0, 1, 2]
 OPS = ["accept", "accept_sub", "receive", "receive_text", "receive_bytes", "iter_text", "iter_bytes", "send_text", "send_bytes", "send_text_empty", "send_bytes_empty", "close", "close_1001",
        "raw_accept", "raw_send", "raw_close", "raw_close_nocode", "raw_http", "raw_trunc", "raw_empty", "state"]
@@ -35,6 +35,8 @@ def script_messages(frames):
     for i, f in enumerate(frames):
         if f == "t":
             msgs.append({"type": "websocket.receive", "text": f"t{i}"})
+        elif f in ("e", "E"):
+            msgs.append({"type": "websocket.receive", "text": ""} if f == "e" else {"type": "websocket.receive", "bytes": b""})
         else:
             msgs.append({"type": "websocket.receive", "bytes": f"b{i}".encode()})
         if i % 2:
